@@ -255,7 +255,38 @@ def r18f(ctx):
               str(cases), key_detail="direct path direction guard", loc=ctx.loc(repo.cls(LT).module, g[0]))
 
 
+def r18g(ctx):
+    repo = ctx.repo
+    ctx.rule("R18g", "arrays that receive computed coordinates are allocated as floating point, whatever the type of the endpoints (integer endpoints are legal input): "
+             "np.zeros / empty / ones / full without an inherited or integer dtype, and no *_like of an input", expected=1, kind="N")
+    FLOAT_OK = ("float", "np.float64", "np.float_", "numpy.float64", "'float'", "'float64'", "np.double")
+    n = 0
+    for q in (UP, "pyrex.ray_tracing.UniformRayTracer"):
+        ci = repo.cls(q)
+        for st in ci.node.body:
+            if not isinstance(st, ast.FunctionDef):
+                continue
+            for c_ in ast.walk(st):
+                if not isinstance(c_, ast.Call):
+                    continue
+                f_ = u(c_.func)
+                if f_ in ("np.zeros", "np.empty", "np.ones", "np.full"):
+                    n += 1
+                    kw = {k.arg: k.value for k in c_.keywords}
+                    dt = kw.get("dtype") or (c_.args[1] if f_ != "np.full" and len(c_.args) > 1 else (c_.args[2] if f_ == "np.full" and len(c_.args) > 2 else None))
+                    ctx.check(dt is None or u(dt) in FLOAT_OK, "R18g", f"{q}.{st.name}", "coordinate array allocated as float", u(c_)[:120], key_detail=f"dtype of {f_}",
+                              loc=ctx.loc(ci.module, c_))
+                elif f_ in ("np.zeros_like", "np.empty_like", "np.ones_like", "np.full_like"):
+                    n += 1
+                    kw = {k.arg: k.value for k in c_.keywords}
+                    ctx.check(kw.get("dtype") is not None and u(kw["dtype"]) in FLOAT_OK, "R18g", f"{q}.{st.name}", "coordinate array allocated as float", u(c_)[:120],
+                              key_detail=f"dtype of {f_}", loc=ctx.loc(ci.module, c_))
+    if n == 0:
+        ctx.unknown("R18g", UP, "at least one coordinate allocation found", "")
+
+
 def run(ctx):
+    ctx.guard(r18g)
     ctx.guard(r18f)
     ctx.guard(r18a)
     ctx.guard(r18b)
@@ -266,6 +297,8 @@ def run(ctx):
 
 SELFTEST = {
     "faults": [
+        {"name": "reflection points inherit the dtype of the source", "file": "pyrex/ray_tracing.py", "old": "            points = np.zeros((self._reflections+2, 3))",
+         "new": "            points = np.zeros((self._reflections+2, 3), dtype=self.from_point.dtype)", "rule": "R18g"},
         {"name": "level direct path skipped in both directions", "file": "pyrex/custom/layered_ice/ray_tracing.py", "old": "                         (self.z1-self.z0<0 and start_direction==-1))):",
          "new": "                         (self.z1-self.z0<=0 and start_direction==-1))):", "rule": "R18f"},
         {"name": "different dzs in tracer and path", "file": "pyrex/ray_tracing.py", "old": "            dzs.extend([size]*(self._reflections-1))",
